@@ -185,6 +185,21 @@ def run(tier):
     wide("or", "SELECT a FROM t1 WHERE lower(name) = 'x' OR k1 = 1" + " OR a = 1" * kk, ["t1"], ["a", "name", "k1"], ["lower"])
     wide("plus", "SELECT f(id) + amount" + " + a" * kk + " FROM t1", ["t1"], ["id", "amount", "a"], ["f"])
     wide("concat", "SELECT g(name) || c" + " || a" * kk + " FROM t1", ["t1"], ["name", "c", "a"], ["g"])
+    # the same chains as statements of the reference grammar (qgen.flat_chain: distinct names in the first operands),
+    # in every layout: oracle here, and below the MODEL correspondences on them (never sampled away, no size limit)
+    kc = 160 if quick else 400
+    chains = []                 # (kind, stmt, layout index, harness input)
+    for kind in qgen.CHAIN_KINDS:
+        st = qgen.flat_chain(kind, kc)
+        for li, L in enumerate(lays):
+            d = qgen.harness_input(st, L)
+            if li == 0:
+                d["sql"] = d["sql"].replace(" OR ", "\n OR ").replace(" AND ", "\n AND ").replace(" UNION ", "\n UNION ")   # the tokenizer is quadratic in line length
+            d["want"] = qgen.written(st)
+            d["want"]["qcolumns"] = [list(x) for x in d["want"]["qcolumns"]]
+            d["shape"] = "flat_chain_ref:" + kind
+            chains.append((kind, st, li, d))
+    decoys += [d for _, _, _, d in chains]
     corpus = sqlgen.corpus_statements() + sqlgen.generated_statements(rng, 300 if quick else 4000) + sqlgen.SPECIAL
     inputs = [d for _, _, d in ref] + decoys + [{"sql": s} for s in corpus]
     for i, d in enumerate(inputs):
@@ -210,7 +225,7 @@ def run(tier):
         for f in oracle(r, d["want"]):
             failures.append((d, r, f))
     for d, r in zip(decoys, res[n_ref_in:n_ref_in + len(decoys)]):
-        if d["shape"].startswith("flat_chain:") and not r["accepted"]:
+        if d["shape"].startswith("flat_chain") and not r["accepted"]:
             failures.append((d, r, "rejected:flat chain of %d operands is not accepted" % kk))
         if r["accepted"]:
             for f in oracle(r, d["want"]):
@@ -281,6 +296,21 @@ def run(tier):
             body = PREAMBLE + "Definition cases : list rcase := [\n" + ";\n".join(rcase_term(st, r, tb, unknown) for st, d, r in sh) + "].\n"
             body += "Definition bad := Eval vm_compute in bad_indices (ref_case_ok em) 0%N cases.\nPrint bad.\n"
             jobs.append(("c15_r_%d" % si, body)); owners.append(("r", sh))
+    # flat chains: every chain statement, model on the dump of the real tree (all layouts) and prescribed tree (layout 0)
+    chain_res = res[n_ref_in + len(decoys) - len(chains):n_ref_in + len(decoys)]
+    chain_x = [r for (_, _, _, d), r in zip(chains, chain_res) if r["accepted"] and r.get("tree")]
+    chain_r = [(st, d, r) for (_, st, li, d), r in zip(chains, chain_res) if li == 0 and r["accepted"] and len(r.get("tree") or []) == 1]
+    for ci in range(0, len(chain_x), 5):
+        sh = chain_x[ci:ci + 5]
+        body = PREAMBLE + "Definition cases : list xcase := [\n" + ";\n".join(xcase_term(r, tb, unknown) for r in sh) + "].\n"
+        body += "Definition bad := Eval vm_compute in bad_indices (extract_case_ok em) 0%N cases.\nPrint bad.\n"
+        jobs.append(("c15_chain_x_%d" % (ci // 5), body)); owners.append(("x", sh))
+    if chain_r:
+        body = PREAMBLE + "Definition cases : list rcase := [\n" + ";\n".join(rcase_term(st, r, tb, unknown) for st, d, r in chain_r) + "].\n"
+        body += "Definition bad := Eval vm_compute in bad_indices (ref_case_ok em) 0%N cases.\nPrint bad.\n"
+        jobs.append(("c15_chain_r", body)); owners.append(("r", chain_r))
+    rp.cov["flat_chain_model_cases"] = {"operands": kc, "dumped_trees": len(chain_x), "prescribed_trees": len(chain_r),
+                                        "max_nodes": max([r["nodes"] for r in chain_x] or [0])}
     bad_x, bad_r, coq_fail = [], [], None
     if ok_inst:
         for (kind, sh), (okc, outc, errc) in zip(owners, qast.coq_cases_parallel(jobs)):
@@ -295,7 +325,8 @@ def run(tier):
         if coq_fail:
             rp.violation({"kind": "correspondence", "detail": coq_fail}, "cases_coq", no_input=True)
     rp.cov["traces_validated_against_model"] = len(sample)
-    rp.obligation("correspondence: Coq extract_* on the dump of %d real trees = gosqlx.Extract* output" % len(sample), ok_inst and not bad_x and not coq_fail)
+    rp.obligation("correspondence: Coq extract_* on the dump of %d real trees (+ %d flat chains of %d operands, every layout) = gosqlx.Extract* output" % (len(sample), len(chain_x), kc),
+                  ok_inst and not bad_x and not coq_fail and len(chain_x) == len(chains))
     for r in bad_x[:3]:
         d = inputs[r["id"]]
         fails = oracle(r, d["want"]) if "want" in d else None
@@ -305,8 +336,8 @@ def run(tier):
                      "model_mismatch_%d" % len(rp.violations), no_input=not fails)
     if unknown:
         rp.cov["notes"].append("dumped trees use types/edges absent from the C14 tables: %s" % sorted(unknown)[:5])
-    rp.obligation("tie: ast_stmt s = dump(parse(render s)), items s = generator knowledge, model(ast_stmt s) = written, on %d generated statements" % len(refs),
-                  ok_inst and not bad_r and not coq_fail)
+    rp.obligation("tie: ast_stmt s = dump(parse(render s)), items s = generator knowledge, model(ast_stmt s) = written, on %d generated statements + %d flat chains" % (len(refs), len(chain_r)),
+                  ok_inst and not bad_r and not coq_fail and len(chain_r) == len(qgen.CHAIN_KINDS))
     for st, d, r in bad_r[:3]:
         fails = oracle(r, d["want"])
         rp.violation({"kind": "correspondence", "input": {k: d[k] for k in d if k != "id"}, "coq_stmt": qgen.coq_stmt(st), "oracle_failures": fails,
